@@ -27,6 +27,8 @@ def run_link(ctx, replay=None, corpus_dirs=("C01", "C03")):
             if prop == "C11":
                 jobs.append(("close%d" % i, ["gen", "link-close", (n_exact + n_burst) // parts], ctx.seed * 1000 + 600 + i))
                 jobs.append(("forward%d" % i, ["gen", "link-forward", (n_exact + n_burst) // parts // 5], ctx.seed * 1000 + 650 + i))
+                if i == 0:
+                    jobs.append(("closecancel", ["gen", "link-closecancel", 120 if quick else 4000], ctx.seed * 1000 + 680))
                 continue
             jobs.append(("exact%d" % i, ["gen", "link-exact", n_exact // parts], ctx.seed * 1000 + i))
             jobs.append(("burst%d" % i, ["gen", "link-burst", n_burst // parts], ctx.seed * 1000 + 500 + i))
